@@ -9,7 +9,7 @@ import random
 from sim import workload, hostile, configs
 from sim.kernel import K, enc_acquire, enc_expire, enc_nlmsg, _addr_raw
 from sim.monitors import Survival, Wedge, data_plane_probe
-from sim.observe import WireLog
+from sim.observe import WireLog, parse_header
 from sim.scenario import execute, replayable
 
 PROP = 'C17'
@@ -86,6 +86,9 @@ def generate(seed, tier):
     if r.random() < 0.4:
         sc['byz'] = {'kind': 'auth_malformed', 'seed': r.randrange(2 ** 31)}
         sc['meta']['byz'] = 'auth_malformed'
+    if r.random() < 0.5:
+        # a stray datagram aimed at the SPI pair of a handshake in progress, delivered between D's IKE_SA_INIT response and P's IKE_AUTH request
+        sc['halfopen_stray'] = {'seed': r.randrange(2 ** 31), 'p': r.choice([0.5, 1.0])}
     return sc
 
 
@@ -175,6 +178,7 @@ def _execute(scenario, with_hostile=True):
         sc['ops'] = [o for o in sc['ops'] if not (o['op'] in ('sendfail', 'recvfail', 'kerr', 'kraw', 'clockjump') or
                                                   (o['op'] == 'call' and o['name'] in ('hostile', 'kodd')))]
         sc.pop('byz', None)
+        sc.pop('halfopen_stray', None)
         sc['fate_policy'] = {'mode': 'random', 'lat_range': [0.005, 0.05]}
         sc['fates'] = {k: v for k, v in sc.get('fates', {}).items() if v.get('fate') in ('deliver',)}
 
@@ -194,6 +198,76 @@ def _execute(scenario, with_hostile=True):
             rule, _ = byz.make(sc['byz']['kind'], sc['byz']['seed'], w, ip, tap, ctx['reach'])
             ip.rules.append(rule)
         ctx['handlers'] = _handlers(ctx)
+        hs = sc.get('halfopen_stray')
+        if hs:
+            import struct
+
+            class HalfOpenStray:
+                """Tap + monitor.  The datagram is unauthenticated (nobody but P holds keys for this SPI pair, and P did not make it): the
+                handshake it is aimed at must still be there for P's IKE_AUTH request."""
+                n = 0
+                pending = None
+
+                def on_wire(self, meta, data):
+                    h = parse_header(data)
+                    if h is None or meta['sender'] != 'B' or h['exch'] != 34 or not h['R'] or h['spi_r'] == b'\0' * 8 or w.now >= sc['quiet_from']:
+                        return
+                    self.n += 1
+                    r = random.Random(f'stray:{hs["seed"]}:{self.n}')
+                    if r.random() >= hs['p']:
+                        return
+                    kind = r.choice(['clear_informational', 'auth_garbage', 'header_only', 'wrong_id', 'response_flag', 'not_initiator', 'unknown_exchange',
+                                     'own_response_back'])
+                    exch, flags, mid, body, nxt = 37, 0x08, 0, b'', 0
+                    if kind == 'auth_garbage':
+                        exch, mid, nxt = 35, 1, 46
+                        inner = bytes(r.getrandbits(8) for _ in range(r.choice([8, 48, 200])))
+                        body = struct.pack('>BBH', r.choice([35, 0]), 0, 4 + len(inner)) + inner
+                    elif kind == 'header_only':
+                        exch, mid = r.choice([35, 36]), 1
+                    elif kind == 'wrong_id':
+                        exch, mid = r.choice([35, 36, 37]), r.choice([2, 7, 0xFFFFFFFF])
+                    elif kind == 'response_flag':
+                        exch, flags, mid = r.choice([35, 37]), 0x28, r.choice([0, 1])
+                    elif kind == 'not_initiator':
+                        exch, flags, mid = r.choice([35, 37]), 0x00, 1
+                    elif kind == 'unknown_exchange':
+                        exch, mid = r.choice([0, 33, 38, 255]), 1
+                    if kind == 'own_response_back':
+                        dgram = bytes(data)
+                    else:
+                        dgram = h['spi_i'] + h['spi_r'] + bytes([nxt, 0x20, exch, flags]) + struct.pack('>LL', mid, 28 + len(body)) + body
+                    meta_ = w.scenario['meta']
+                    src = meta['dst'] if r.random() < 0.6 else ('203.0.113.77' if meta_['family'] == 4 else '2001:db8::77')
+                    ctx['reach']['halfopen_stray.' + kind] = ctx['reach'].get('halfopen_stray.' + kind, 0) + 1
+                    w.net.inject(dgram, src, meta['src'], 0.0, 'forge.halfopen_stray')
+                    self.kind = kind
+
+                def before_delivery(self, node, data, src, dst, meta):
+                    if (meta or {}).get('sender') != 'forge.halfopen_stray' or len(data) < 28:
+                        return
+                    spi = bytes(data[8:16])
+                    for sa in node.ike_sas():
+                        if sa.my_spi == spi:
+                            self.pending = (node.name, spi, sa.state.name, self.kind)
+
+                def after_step(self, node, cause):
+                    p = self.pending
+                    if p is None or p[0] != node.name or node.has_readable():
+                        return
+                    self.pending = None
+                    if w.poisoned:
+                        return
+                    ctx['reach']['halfopen_stray_judged'] = ctx['reach'].get('halfopen_stray_judged', 0) + 1
+                    if not any(sa.my_spi == p[1] for sa in node.ike_sas()):
+                        w.violation(PROP, 'handshake_in_progress_dropped_by_stray_datagram', {'kind': p[3], 'state': p[2]},
+                                    f'{node.name}: an unauthenticated datagram ({p[3]}) carrying the SPI pair of the handshake in progress '
+                                    f'({p[1].hex()}, {p[2]}) removed that IKE_SA from the table: the IKE_AUTH request of the legitimate peer will '
+                                    f'find nobody')
+                        w.poisoned = True
+            st = HalfOpenStray()
+            w.net.taps.append(st)
+            w.monitors.append(st)
 
         class Zombie:
             def after_step(self, node, cause):
